@@ -979,6 +979,15 @@ func (d *Pegnetd) ApplyTransactionBlock(sqlTx *sql.Tx, eblock *factom.EBlock) er
 		} else if isReplay {
 			continue
 		}
+		// An entry written to the chain again while an earlier copy is still pending in
+		// holding, or after it was rejected, is already recorded. Recording it a second time
+		// violates the uniqueness of the history (or holding) rows, and the block could
+		// never be applied.
+		if seen, err := d.Pegnet.HasTransactionHistory(sqlTx, txBatch.Entry.Hash); err != nil {
+			return err
+		} else if seen {
+			continue
+		}
 		// At this point, we know that the transaction batch is valid and able to be executed.
 
 		if err = d.Pegnet.InsertTransactionHistoryTxBatch(sqlTx, blockorder, txBatch, eblock.Height); err != nil {
